@@ -319,7 +319,7 @@ def mk_err(rng):
     text = rng.choice([b"ERR unknown command 'foo'", b"WRONGTYPE Operation against a key holding the wrong kind of value",
                        b"ERR", b"x", b"ERR value is not an integer or out of range", b"LOADING Redis is loading",
                        b"ERR \xe9\xff\x80 caf\xc3\xa9", b"ERR with\ttab and \x00 nul", b"MOVEDx 1 2", b"ASKING",
-                       b"ERR lone \r cr", line_bytes(rng, rng.choice([1, 5, 60, 300]))])
+                       line_bytes(rng, rng.choice([1, 5, 60, 300]))])
     if k == "plain":
         for p in (b"MOVED ", b"ASK ", b"CLUSTERDOWN ", b"BUSY ", b"NOSCRIPT "):
             if text.startswith(p):
@@ -558,8 +558,68 @@ def model_check(ctx, name, kcases, what):
     return bad
 
 
+def coq_value(v):
+    t, x = v
+    if t == "s":
+        return "VSimple %s" % coq_bytes(x)
+    if t == "i":
+        return "VInt (%d)%%Z" % x
+    if t == "b":
+        return "VNullBulk" if x is None else "VBulk %s" % coq_bytes(x)
+    if t == "a":
+        return "VNullArray" if x is None else "VArray [" + "; ".join("(%s)" % coq_value(e) for e in x) + "]"
+    if t == "e":
+        k = x["kind"]
+        if k in ("moved", "ask"):
+            return "VError (%s %d%%N %s %d%%N)" % ("EMoved" if k == "moved" else "EAsk", x["slot"], coq_bytes(x["host"]), x["port"])
+        return "VError (%s %s)" % ({"plain": "EPlain", "clusterdown": "EClusterDown", "busy": "EBusy", "noscript": "ENoScript"}[k],
+                                   coq_bytes(x["text"]))
+    raise ValueError(t)
+
+
+def coq_conv(conv):
+    return "[" + "; ".join("((%s, [%s]), %s)" % (coq_bytes(ex["cmd"][0]), "; ".join(coq_bytes(a) for a in ex["cmd"][1:]),
+                                               coq_value(ex["reply"])) for ex in conv) + "]"
+
+
+def spec_check(ctx, convs, tb, name="spec_cases"):
+    """The Coq specification (RespSpec.v: enc, excl, report) against this file's encoder,
+    classifier and expected views, on the same abstract conversations."""
+    terms, budget, part, bad, start = [], 0, 0, [], 0
+
+    def flush():
+        nonlocal terms, budget, part, start
+        if not terms:
+            return True
+        src = (COQ_HEAD + "Require Import V.Resp.RespSpec.\nDefinition cases : list scase := [\n" + ";\n".join(terms) +
+               "].\nDefinition M := Eval vm_compute in failing scheck cases.\nPrint M.\n")
+        rc, out = coqc_run(ctx, "%s_%d" % (name, part), src)
+        idx = vlib.parse_coq_list_of_nat(out, "M")
+        if rc != 0 or idx is None:
+            ctx.broken.append("K_resp_spec: coqc failed on the case file (%s)" % out[-300:].replace("\n", " "))
+            return False
+        bad.extend(start + i for i in idx)
+        start += len(terms)
+        terms, budget = [], 0
+        part += 1
+        return True
+    for conv in convs:
+        cb, sb, _, _ = enc_conv(conv)
+        items, classes, stops = expect(conv, tb)
+        views = "[]" if classes else "[" + "; ".join("(%s, %s)" % (coq_packet(q), coq_packet(r)) for q, r in items) + "]"
+        terms.append("(%s, (%s, %s, %s, %s))" % (coq_conv(conv), coq_bytes(cb), coq_bytes(sb), "true" if classes else "false", views))
+        budget += 3 * (len(cb) + len(sb))
+        if budget > 300000 or len(terms) >= 800:
+            if not flush():
+                return None
+    if not flush():
+        return None
+    ctx.cov["spec_cases_checked"] = ctx.cov.get("spec_cases_checked", 0) + len(convs)
+    return bad
+
+
 def model_available(ctx):
-    need = {"Base/Prelude.v", "Resp/RespBase.v", "Resp/RespModel.v", "Resp/RespRun.v", "gen/RedisTables.v"}
+    need = {"Base/Prelude.v", "Resp/RespBase.v", "Resp/RespModel.v", "Resp/RespSpec.v", "Resp/RespRun.v", "gen/RedisTables.v"}
     failed = getattr(ctx, "coq_failed", None)
     if failed is None:
         return all(os.path.exists(os.path.join(vlib.COQ, f[:-2] + ".vo")) for f in need)
@@ -706,8 +766,11 @@ def c08(ctx):
                     "unsplit_observed": {"c": ref[tail][0][0], "s": ref[tail][0][1], "residue": ref[tail][0][3],
                                          "items": show_items(ref[tail][0][2])}}))
                 break
-            if label in ("corpus", "big") or len(kcases) < (2500 if quick else 20000):
-                if label != "conv" or len(cch) + len(sch) <= 3 or rng.random() < 0.5:
+            # the model is compared on a stratified sample of the segmentations (all of them in the
+            # thorough tier): unsplit, single bytes, corpus, big, and a random part of the rest
+            if label in ("corpus", "big") or not quick or len(cch) + len(sch) <= 2 or len(cch) + len(sch) > 40 \
+                    or rng.random() < 0.12:
+                if len(kcases) < (900 if quick else 20000):
                     kcases.append((cch, tail, sch, tail, r))
     ctx.sample({"kind": "redis-chunking", "streams": len(streams) + 1,
                 "example_client": repr(streams[0][1])[:120], "example_server": repr(streams[0][2])[:120]})
@@ -741,7 +804,7 @@ def c01(ctx):
             if exp is not None and r["items"] != exp:
                 ctx.violation(replay_obj("prefix-" + kind, cch, ct, sch, st, order, r,
                                          dict(extra or {}, expected=show_items(exp))))
-            if order == "cs" and (len(kcases) < (1500 if quick else 12000)):
+            if order == "cs" and (len(kcases) < (700 if quick else 12000)) and (not quick or rng.random() < 0.5):
                 kcases.append((cch, ct, sch, st, r))
 
     # (a)+(b) well-formed conversations and every prefix of them (server side cut, client side cut)
@@ -786,7 +849,7 @@ def c01(ctx):
                 ctx.violation(replay_obj("crash-corruption", cch, ct, sch, st, order, r, extra))
             elif exp is not None and r["items"][:len(exp[1])] != exp[1]:
                 ctx.violation(replay_obj("prefix-corruption", cch, ct, sch, st, order, r, dict(extra, expected_prefix=show_items(exp[1]))))
-            elif len(kcases) < (2200 if quick else 16000):
+            elif len(kcases) < (900 if quick else 16000) and (not quick or rng.random() < 0.5):
                 kcases.append((cch, ct, sch, st, r))
     # (d) arbitrary strings biased to protocol tokens, both directions
     batch = []
